@@ -222,14 +222,24 @@ def body_bigid(case, ctx):
     zd = xr.DataArray(_dask(zn, case["zchunks"], "C"), dims=["y", "x"])
     vd = xr.DataArray(_dask(vn, case["vchunks"], "C"), dims=["y", "x"])
     zx, vx = xr.DataArray(zn, dims=["y", "x"]), xr.DataArray(vn, dims=["y", "x"])
+    kw = {}
+    if case.get("zone_ids") is not None:
+        kw["zone_ids"] = [int(z) for z in case["zone_ids"]]
+        r.label("bigid:zone_ids")
+        if not set(kw["zone_ids"]) & set(int(z) for z in zn.ravel().tolist()):
+            return r   # proviso: at least one requested zone exists
     if case["what"] == "stats":
-        res, ref = stats(zd, vd, stats_funcs=["count", "max"]), stats(zx, vx, stats_funcs=["count", "max"])
+        res, ref = stats(zd, vd, stats_funcs=["count", "max"], **kw), stats(zx, vx, stats_funcs=["count", "max"], **kw)
     else:
-        res, ref = crosstab(zd, vd), crosstab(zx, vx)
+        res, ref = crosstab(zd, vd, **kw), crosstab(zx, vx, **kw)
     with _sched(case):
         df = res.compute() if hasattr(res, "compute") else res
     got = [int(z) for z in df["zone"].tolist()]
     exp = sorted(set(int(z) for z in zn.ravel().tolist()))
+    if case.get("zone_ids") is not None:
+        exp = [z for z in exp if z in set(int(i) for i in case["zone_ids"])]
+        if not exp:
+            return r   # proviso: at least one requested zone exists
     want = [int(z) for z in ref["zone"].tolist()]
     if want != exp:
         return r.fail("bigid.numpy_zone_ids", "NumPy table has zone ids %s, the raster holds %s" % (want, exp))
@@ -253,7 +263,9 @@ def bigid_cases(draw):
     zones = draw(S.grid(h, w, ids))
     values = draw(S.grid(h, w, [0, 1, 2, 3]))
     zc, vc = draw(chunk_pair(h, w))
-    return {"sub": "bigid", "what": draw(st.sampled_from(["stats", "stats", "ct"])), "zones": {"dtype": "int64", "data": zones},
+    present = sorted({v for row in zones for v in row})
+    zone_ids = draw(st.one_of(st.none(), st.lists(st.sampled_from(present + [base + 7]), min_size=1, max_size=3, unique=True)))
+    return {"sub": "bigid", "what": draw(st.sampled_from(["stats", "stats", "ct"])), "zone_ids": zone_ids, "zones": {"dtype": "int64", "data": zones},
             "values": {"dtype": "int32", "data": values}, "zchunks": zc, "vchunks": vc, "scheduler": draw(st.sampled_from(SCHEDS))}
 
 
